@@ -180,8 +180,12 @@ class G:
             return ("lib", t, k, t, (self.e_int(t, depth - 1, sc), self.e_int(t, depth - 1, sc)))
         if k == "shl":
             return ("lib", t, "shift", t, (self.e_int(t, depth - 1, sc), ("lit", MI, self.int(0, 7), "dec")))
-        # right shift of a non-negative value only: big integers shift their magnitude, machine integers their two's complement word
-        return ("lib", t, "shift", t, (("lib", t, "abs", t, (self.e_int(t, depth - 1, sc),)), ("lit", MI, -self.int(1, 7), "dec")))
+        # right shift: big integers shift their magnitude, machine integers their two's complement word (arithmetic shift), so a
+        # negative operand is supplied to the machine-integer form only
+        arg = self.e_int(t, depth - 1, sc)
+        if t == Z or self.chance(40):
+            arg = ("lib", t, "abs", t, (arg,))
+        return ("lib", t, "shift", t, (arg, ("lit", MI, -self.int(1, 7), "dec")))
 
     def small_mi(self, depth, sc):
         """an MI expression with value in 0..5 (for recursion depth, generator length, exponents)"""
@@ -997,8 +1001,8 @@ class Evaluator:
             elif name == "min":
                 r = min(a)
             elif name == "shift":
-                if a[1] < 0 and a[0] < 0:
-                    raise OutOfModel("right shift of a negative value")
+                if a[1] < 0 and a[0] < 0 and at != MI:
+                    raise OutOfModel("right shift of a negative big integer")
                 r = a[0] << a[1] if a[1] >= 0 else a[0] >> -a[1]
             elif name == "length":
                 if a[0] <= 0:
